@@ -131,6 +131,8 @@ def generate_target(unit, cls, fn, concrete=None):
         obs, info = eng.verify(fc, concrete)
         res["info"] = info
         res["info"]["stats"] = dict(eng.stats)
+        if info.get("stale"):
+            res["status"], res["detail"] = "stale-contract", info["stale"]
         if concrete and concrete != cls:
             for ob in obs:
                 ob.name = ob.name.replace(fc.qualname, concrete + "::" + fc.qualname, 1)
